@@ -49,6 +49,7 @@ type c13Round struct {
 	CloseEarly bool     `json:"close_early"` // Close while clients are still running
 	Restart    bool     `json:"restart"`     // Close/Open at the end and compare owned items
 	YieldPct   int      `json:"yield_pct"`   // percentage of hook points at which a yield / microsleep is injected
+	HotPct     int      `json:"hot_pct"`     // percentage of client ops redirected to the shared node (merge / reinforce)
 }
 
 type c13Owned struct {
@@ -58,6 +59,10 @@ type c13Owned struct {
 }
 
 const c13Watch = 20 * time.Second
+
+// several shared nodes: a seeded change that keys a lock on something other than the internal id can coincide with the
+// right shard for one particular node
+var c13Shared = []string{"shared", "hub", "pivot", "nexus"}
 
 func c13Has(list []string, x string) bool {
 	for _, s := range list {
@@ -124,8 +129,10 @@ func c13RunRound(c c13Round) (msg string) {
 	if err := e.VCreate("main", distance.Euclidean, 8, 40, distance.Float32, "english", &maint, nil, nil); err != nil {
 		return "harness: " + err.Error()
 	}
-	if err := e.VAdd("main", "shared", []float32{0.5, 0.5}, map[string]any{"s": "shared"}); err != nil {
-		return "harness: " + err.Error()
+	for i, sid := range c13Shared {
+		if err := e.VAdd("main", sid, []float32{0.5, 0.5 + float32(i)}, map[string]any{"s": "shared"}); err != nil {
+			return "harness: " + err.Error()
+		}
 	}
 	// seeded yields at hook points
 	var hookCount atomic.Uint64
@@ -243,7 +250,14 @@ func c13RunRound(c c13Round) (msg string) {
 		}()
 	}
 	// ---- clients
-	var reinforceAcked atomic.Int64
+	reinforceAcked := make([]atomic.Int64, len(c13Shared))
+	sharedMerged := make([][]float64, len(c13Shared)) // per shared node, per client: value of its own key in its last acknowledged merge (-1 none)
+	for i := range sharedMerged {
+		sharedMerged[i] = make([]float64, c.Clients)
+		for j := range sharedMerged[i] {
+			sharedMerged[i][j] = -1
+		}
+	}
 	kvWritten := make([]sync.Map, 4) // per shared key: value -> true (recorded BEFORE the write is issued)
 	owned := make([]map[string]*c13Owned, c.Clients)
 	var afterClose atomic.Bool // set once Close has RETURNED
@@ -264,6 +278,9 @@ func c13RunRound(c c13Round) (msg string) {
 				var opErr error
 				var returned bool
 				kind := rng.Intn(16)
+				if rng.Intn(100) < c.HotPct {
+					kind = 6 + rng.Intn(3) // contend on the shared node: disjoint-key merge or reinforce
+				}
 				mutating := true
 				switch kind {
 				case 0, 1, 2:
@@ -289,15 +306,20 @@ func c13RunRound(c c13Round) (msg string) {
 				case 6:
 					// disjoint-key merge on the shared node
 					upd := map[string]any{fmt.Sprintf("client%d", ci): float64(n)}
-					opErr, returned = c13Call("VSetMetadata(shared)", func() error { return e.VSetMetadata("main", "shared", upd) }, &hung)
+					si := rng.Intn(len(c13Shared))
+					opErr, returned = c13Call("VSetMetadata(shared)", func() error { return e.VSetMetadata("main", c13Shared[si], upd) }, &hung)
+					if returned && opErr == nil {
+						sharedMerged[si][ci] = float64(n)
+					}
 				case 7, 8:
 					// VReinforce is best effort by contract: per-id failures (unknown id,
 					// journal write refused) are logged and skipped and the call returns nil,
 					// so "fails cleanly" after Close is only "returns, no panic, not counted".
 					mutating = false
-					opErr, returned = c13Call("VReinforce(shared)", func() error { return e.VReinforce("main", []string{"shared"}) }, &hung)
+					si := rng.Intn(len(c13Shared))
+					opErr, returned = c13Call("VReinforce(shared)", func() error { return e.VReinforce("main", []string{c13Shared[si]}) }, &hung)
 					if returned && opErr == nil && !wasAfterClose && !closed.Load() {
-						reinforceAcked.Add(1)
+						reinforceAcked[si].Add(1)
 					}
 				case 9:
 					key := rng.Intn(4)
@@ -327,7 +349,7 @@ func c13RunRound(c c13Round) (msg string) {
 					}, &hung)
 				case 13:
 					mutating = false
-					opErr, returned = c13Call("VGet", func() error { e.VGet("main", id); e.VGetMany("main", []string{id, "shared"}); return nil }, &hung)
+					opErr, returned = c13Call("VGet", func() error { e.VGet("main", id); e.VGetMany("main", []string{id, c13Shared[0]}); return nil }, &hung)
 				case 14:
 					items := []types.BatchObject{{Id: fmt.Sprintf("c%d_b%d", ci, n), Vector: []float32{1, float32(n % 7)}, Metadata: map[string]any{"owner": float64(ci)}},
 						{Id: fmt.Sprintf("c%d_b%d_2", ci, n), Vector: []float32{2, float32(n % 5)}}}
@@ -386,14 +408,26 @@ func c13RunRound(c c13Round) (msg string) {
 	}
 	// ---- per-item outcomes (live)
 	verify := func(e *engine.Engine, when string) string {
-		vd, err := e.VGet("main", "shared")
-		if err != nil {
-			return when + ": the shared node is gone: " + err.Error()
-		}
-		want := float64(reinforceAcked.Load())
-		got, _ := vd.Metadata["_access_count"].(float64)
-		if got != want {
-			return fmt.Sprintf("%s: _access_count of the shared node is %v, but %v VReinforce calls were acknowledged (lost update)", when, vd.Metadata["_access_count"], want)
+		for si, sid := range c13Shared {
+			vd, err := e.VGet("main", sid)
+			if err != nil {
+				return when + ": the shared node " + sid + " is gone: " + err.Error()
+			}
+			want := float64(reinforceAcked[si].Load())
+			got, _ := vd.Metadata["_access_count"].(float64)
+			if os.Getenv("C13_DEBUG") != "" {
+				fmt.Fprintf(os.Stderr, "C13DEBUG %s %s: access_count=%v acked=%v meta=%v merged=%v\n", when, sid, vd.Metadata["_access_count"], want, vd.Metadata, sharedMerged[si])
+			}
+			if got != want {
+				return fmt.Sprintf("%s: _access_count of the shared node %s is %v, but %v VReinforce calls were acknowledged (lost update)", when, sid, vd.Metadata["_access_count"], want)
+			}
+			for ci := 0; ci < c.Clients; ci++ {
+				if sharedMerged[si][ci] >= 0 {
+					if got, _ := vd.Metadata[fmt.Sprintf("client%d", ci)].(float64); got != sharedMerged[si][ci] {
+						return fmt.Sprintf("%s: key client%d of the shared node %s is %v, that client's last acknowledged merge set it to %v (a concurrent merge or reinforce wrote back a stale map)", when, ci, sid, vd.Metadata[fmt.Sprintf("client%d", ci)], sharedMerged[si][ci])
+					}
+				}
+			}
 		}
 		for ci := 0; ci < c.Clients; ci++ {
 			for id, st := range owned[ci] {
@@ -488,6 +522,7 @@ func TestVerif_C13_stress(t *testing.T) {
 			Seed:     int64(rapid.IntRange(1, 1<<30).Draw(rt, "seed")),
 			Procs:    rapid.SampledFrom([]int{1, 2, 4, 16}).Draw(rt, "procs"),
 			YieldPct: rapid.SampledFrom([]int{0, 10, 40}).Draw(rt, "yield"),
+			HotPct:   rapid.SampledFrom([]int{0, 0, 30, 90}).Draw(rt, "hot"),
 		}
 		for _, b := range []string{"snapshot", "rewrite", "maint", "scratch", "compress", "subscriber"} {
 			if rapid.Bool().Draw(rt, "bg-"+b) {
@@ -507,6 +542,7 @@ func TestVerif_C13_stress(t *testing.T) {
 		if c.Restart {
 			labels = append(labels, "restart-at-end")
 		}
+		labels = append(labels, fmt.Sprintf("hot=%d", c.HotPct), fmt.Sprintf("yield=%d", c.YieldPct))
 		col.Case(c, c.Clients >= 2 && len(c.Background) > 0, labels...)
 		col.InFlight(c)
 		msg := c13RunRound(c)
